@@ -119,19 +119,19 @@ SimNext ==
   IF Manual /\ InP2 THEN ExpirePhase2 /\ w' = 0
   ELSE
   \/ (~Manual /\ (SweepExpire \/ SweepRemove)) /\ w' = 0
-  \/ \E s \in 1..(IF Manual THEN 12 ELSE 1) : ExpirePhase2 /\ w' = s
-  \/ \E s \in 1..(IF Manual /\ Candidates(now) # {} THEN 4 ELSE 1) : ExpirePhase1 /\ w' = s
-  \/ \E s \in 1..5 : Tick /\ w' = s
-  \/ \E s \in 1..6 : SimPublish(s) /\ w' = s
-  \/ \E s \in 1..2 : SimCasHit(s) /\ w' = s
-  \/ \E s \in 1..3 : SimMulti(s) /\ w' = s
-  \/ \E s \in 1..2 : SimVersioned(s) /\ w' = s
-  \/ \E s \in 1..3 : SimRefresh(s) /\ w' = s
+  \/ \E s \in 1..(IF Manual THEN 6 ELSE 1) : ExpirePhase2 /\ w' = s
+  \/ \E s \in 1..(IF Manual /\ Candidates(now) # {} THEN 3 ELSE 1) : ExpirePhase1 /\ w' = s
+  \/ \E s \in 1..3 : Tick /\ w' = s
+  \/ \E s \in 1..3 : SimPublish(s) /\ w' = s
+  \/ \E s \in 1..1 : SimCasHit(s) /\ w' = s
+  \/ \E s \in 1..2 : SimMulti(s) /\ w' = s
+  \/ \E s \in 1..1 : SimVersioned(s) /\ w' = s
+  \/ \E s \in 1..2 : SimRefresh(s) /\ w' = s
   \/ \E s \in 1..1 : SimRemove(s) /\ w' = s
-  \/ \E s \in 1..2 : SimRemoveHit(s) /\ w' = s
-  \/ \E s \in 1..3 : SimReadState(s) /\ w' = s
-  \/ \E s \in 1..2 : SimReadStream(s) /\ w' = s
-  \/ (H(7) % 3 = 0) /\ Clear /\ w' = 0
+  \/ \E s \in 1..1 : SimRemoveHit(s) /\ w' = s
+  \/ \E s \in 1..2 : SimReadState(s) /\ w' = s
+  \/ \E s \in 1..1 : SimReadStream(s) /\ w' = s
+  \/ (H(7) % 5 = 0) /\ Clear /\ w' = 0
 
 SimSpec == Init /\ w = 0 /\ [][SimNext]_simvars
 =============================================================================
